@@ -190,7 +190,7 @@ StartsAudit    == {St("deepA", "ref", "root", 0, FALSE, 0), St("deepA", "ref", "
 StartsObj1     == {St("AB", "dup", "rootref", 2, TRUE, 1)}
 StartsObj      == {St("AB", "dup", "rootref", 2, TRUE, 1), St("A", "arr2", "none", 1, FALSE, 1)}
 
-StartsAll3     == {St("AmB", c, "rootref", 1, FALSE, 0) : c \in {"dup", "refarr"}}
+StartsAll3     == {St("AmB", c, "rootref", 1, FALSE, 0) : c \in {"refarr"}}
                   \cup {St("AB", "ref", "both", 2, TRUE, 1), St("mABC", "dup", "pageref", 1, FALSE, 1)}
 
 StartsThorough ==
